@@ -507,10 +507,16 @@ class Node:
         interval = time.time()
         while not _thread.is_stopped:
             if time.time() - interval >= 60:
-                interval = time.time()
-                stats_snapshot = dataclasses.asdict(self.statistics)
-                stats_snapshot["timestamp"] = int(time.time())
-                self.statistics_history.append(stats_snapshot)
+                try:
+                    stats_snapshot = dataclasses.asdict(self.statistics)
+                except RuntimeError as e:
+                    # the counters are updated by other threads while they are
+                    # being read here; try again at the next round
+                    self.logger.debug(f"statistics snapshot postponed: {e}")
+                else:
+                    interval = time.time()
+                    stats_snapshot["timestamp"] = int(time.time())
+                    self.statistics_history.append(stats_snapshot)
 
             time.sleep(2)
 
